@@ -391,6 +391,56 @@ func seqCase(r drv.Rand, pool *tok.Pool, w *emit.Writer, ctx context.Context, i 
 	return false
 }
 
+// ctorCase: the verifier is the one rp.NewRelyingPartyOIDC hands out against a mock
+// discovery document (explicit WithSupportedSigningAlgorithms and / or
+// WithSigningAlgsFromDiscovery in either order); the token is valid and correctly
+// signed, so only the effective allow-list decides: v.Algs is what the option
+// documentation promises (tok.RPCtor.Documented).
+func ctorCase(r drv.Rand, pool *tok.Pool, w *emit.Writer, ctx context.Context, i int) (ambiguous bool) {
+	alg := algs[i%len(algs)]
+	if r.Chance(1, 3) {
+		alg = drv.Pick(r, []string{"RS256", "ES256", "PS256"})
+	}
+	signer := drv.Pick(r, pool.ForAlg(alg))
+	ctor := tok.DrawCtor(r.IntN, alg, algs)
+	e := ""
+	v := tok.VCfg{Issuer: issuer, Client: client, Offset: time.Second, Nonce: &e, Algs: ctor.Documented()}
+	ks := tok.KeySetDesc{Kind: "remote", Served: []tok.JWK{{Kid: "k1", Use: "sig", Key: signer}}}
+	nowSec := time.Now().Unix()
+	c := tok.Claims{Iss: issuer, Sub: "user-c", Aud: []string{client}, Exp: nowSec + 3600, Iat: nowSec - 10, Extra: fmt.Sprintf("c%d", r.IntN(100000))}
+	t, m := tok.Build(r, tok.BuildSpec{Signer: signer, Alg: alg, Kid: "k1", Claims: c, Payload: c.Payload(tok.PayloadOpts{ExtraKey: "ext", Reverse: r.Bool()}), Mut: "none"})
+	var out *oidc.IDTokenClaims
+	var err error
+	pan := ""
+	pv, cerr := ctor.NewRP(issuer, client, ks.Served, false)
+	if cerr != nil {
+		pan = "NewRelyingPartyOIDC: " + cerr.Error()
+	}
+	t0 := time.Now().UnixNano()
+	if pan == "" {
+		pan = drv.Catch(func() { out, err = rp.VerifyIDToken[*oidc.IDTokenClaims](ctx, t.Raw, pv) })
+	}
+	t1 := time.Now().UnixNano()
+	if tok.TimeView(v, c, t0) != tok.TimeView(v, c, t1) {
+		return true
+	}
+	obs := "OPanic"
+	if pan == "" {
+		if out != nil {
+			cl, a := tok.FromIDToken(out)
+			obs = emit.Ctor("OOut", tok.Outcome(&cl, a, err))
+		} else {
+			obs = emit.Ctor("OOut", tok.Outcome(nil, "", err))
+		}
+	}
+	in := emit.Ctor("IIDToken", v.Coq(), ks.Coq(), t.Coq(), m.Coq(), emit.None, emit.Z(t0), emit.Z(t1))
+	w.Add(emit.Case{Input: tok.Share(in), Observed: obs,
+		Tags: []string{"call=ctor", "alg=" + alg, fmt.Sprintf("explicit=%v", ctor.Explicit != nil), fmt.Sprintf("disc=%v", ctor.Disc), fmt.Sprintf("disc_first=%v", ctor.DiscFirst),
+			fmt.Sprintf("announced_nil=%v", ctor.Announced == nil)},
+		Human: map[string]any{"explicit": ctor.Explicit, "announced": ctor.Announced, "token": t.Raw}})
+	return false
+}
+
 // shardSize: thorough shards are kept small so that 16 coqc processes evaluating
 // them in parallel stay well below 1 GB each (0 = emit's default for quick).
 func shardSize(cfg drv.Config) int {
@@ -406,11 +456,17 @@ func main() {
 	pool := tok.NewPool(r)
 	tok.SetWarm(pool)
 	w := emit.NewWriter(cfg.Out, "C01_spec", shardSize(cfg), cfg.Only)
-	n := cfg.Count(640, 16000)
+	n := cfg.Count(720, 18000)
 	amb := 0
 	ctx := context.Background()
 
 	for i := 0; i < n; i++ {
+		if i%8 == 3 { // the verifier a constructed relying party hands out
+			if ctorCase(r, pool, w, ctx, i/8) {
+				amb++
+			}
+			continue
+		}
 		if i%8 == 7 { // sequences on one verifier instance
 			if seqCase(r, pool, w, ctx, i/8) {
 				amb++
@@ -515,7 +571,8 @@ func main() {
 			c.Azp = client
 		}
 		if r.Chance(1, 4) { // several audiences, azp present
-			c.Aud = drv.Pick(r, [][]string{{client, "api"}, {"api", client}, {"api", client, "other"}, {strings.ToUpper(client), client}, {client + "/", client, " " + client}})
+			c.Aud = drv.Pick(r, [][]string{{client, "api"}, {"api", client}, {"api", client, "other"}, {strings.ToUpper(client), client}, {client + "/", client, " " + client},
+				{client, client}, {client, "api", client}, {"api", "api", client}, {client, client, client}}) // repeated entries are entries
 			c.Azp = client
 		}
 		at, atLen, atForm := accessToken(r)
@@ -572,7 +629,7 @@ func main() {
 				val = "absent"
 				c.Sub = ""
 			case "aud":
-				val = drv.Pick(r, []string{"absent", "wrong", "near", "near", "multi_noazp", "multi_other_first"})
+				val = drv.Pick(r, []string{"absent", "wrong", "near", "near", "multi_noazp", "multi_other_first", "dup_noazp", "dup_noazp", "dup_azp", "dup_other_noazp"})
 				switch val {
 				case "absent":
 					c.Aud = nil
@@ -586,6 +643,15 @@ func main() {
 					val = "near_" + how
 				case "multi_noazp":
 					c.Aud = []string{client, "api"}
+					c.Azp = ""
+				case "dup_noazp": // the SAME identifier several times: still several audiences
+					c.Aud = drv.Pick(r, [][]string{{client, client}, {client, client, client}})
+					c.Azp = ""
+				case "dup_azp":
+					c.Aud = drv.Pick(r, [][]string{{client, client}, {"api", client, "api"}})
+					c.Azp = client
+				case "dup_other_noazp":
+					c.Aud = []string{"api", "api"}
 					c.Azp = ""
 				default:
 					c.Aud = []string{"api", "other", client}
